@@ -258,7 +258,7 @@ func (s *Sorter) SortedBlocks(ctx context.Context, removedCols map[int]struct{},
 		offset := 0
 		blkPK := make([]string, 0, len(pkIndices))
 		rowPK := make([]string, len(pkIndices))
-		prevRowPK := make([]string, len(pkIndices))
+		var prevRowPK []string
 		dec := objects.NewStrListDecoder(true)
 		n := len(s.chunks)
 		chunkRows := make([]objects.StrList, n)
@@ -318,7 +318,11 @@ func (s *Sorter) SortedBlocks(ctx context.Context, removedCols map[int]struct{},
 			minRow = r.RemoveFrom(minRow)
 			row := dec.Decode(minRow)
 			slice.CopyValuesFromIndices(row, rowPK, pkIndices)
-			pkOK := pkIsDifferent(rowPK, prevRowPK)
+			pkOK := prevRowPK == nil || pkIsDifferent(rowPK, prevRowPK)
+			if prevRowPK == nil {
+				prevRowPK = make([]string, len(pkIndices))
+				copy(prevRowPK, rowPK)
+			}
 			if pkOK {
 				m := len(blk)
 				blk = blk[:m+1]
@@ -408,7 +412,7 @@ func (s *Sorter) SortedRows(ctx context.Context, removedCols map[int]struct{}, e
 		SortRows(s.current, s.PK)
 		chunkIdx := make([]int, n)
 		pk := make([]string, len(pkIndices))
-		prevPK := make([]string, len(pkIndices))
+		var prevPK []string
 		for {
 			minInd := 0
 			var minRow []string
@@ -462,7 +466,11 @@ func (s *Sorter) SortedRows(ctx context.Context, removedCols map[int]struct{}, e
 				break
 			}
 			slice.CopyValuesFromIndices(minRow, pk, pkIndices)
-			pkOK := pkIsDifferent(pk, prevPK)
+			pkOK := prevPK == nil || pkIsDifferent(pk, prevPK)
+			if prevPK == nil {
+				prevPK = make([]string, len(pkIndices))
+				copy(prevPK, pk)
+			}
 			if pkOK {
 				rows = append(rows, s.removeCols(minRow, removedCols))
 				if s.profiler != nil {
